@@ -301,6 +301,68 @@ def run_node_workload(cx, spec, rng):
     cx.evals += run.evals
     cx.cov["node_histories_under_contract"] = run.evals
     cx.hashes.update(run.hashes)
+    run_node_origin(cx)
+
+
+def run_node_origin(cx):
+    """Answers the node builds itself, read off the wire: they carry the *local* Origin-Host and Origin-Realm also
+    when the peer they go to lives in another realm, on inbound and on self-initiated connections."""
+    from vf.simnet.world import World, REALM, NODE_HOST
+    from vf.simnet import msgs as M
+    other = "other.example"
+    for direction in ("in", "out"):
+        name = "peer1.other.example"
+        w = World(dict(peers=[{"name": name, "realm": other, "persistent": direction == "out",
+                               "reconnect_wait": 10 ** 6}],
+                       apps=[{"tag": "a4", "id": 4, "peers": [name]}],
+                       node={"idle_timeout": 10 ** 6}))
+        h = w.h
+        try:
+            w.start()
+            h.settle()
+            if direction == "in":
+                sp = h.inbound(ip="10.1.0.1", port=50000)
+                h.settle()
+                sp.send(M.cer(name, other, auth=[4], hbh=1, e2e=1))
+            else:
+                if not h.outbound_peers:
+                    cx.cov["node_origin_no_dial"] = cx.cov.get("node_origin_no_dial", 0) + 1
+                    continue
+                sp = h.outbound_peers[0]
+                h.settle()
+                sp.drain()
+                cer = [f for f in sp.frames if f.h.code == 257 and f.is_request]
+                if not cer:
+                    continue
+                sp.send(M.cea(name, other, auth=[4], hbh=cer[-1].h.hbh, e2e=cer[-1].h.e2e))
+            h.settle()
+            sends = [("dwr", M.dwr(name, other, hbh=11, e2e=11)),
+                     ("app_unsupported", M.ccr(name, other, other, app=999, hbh=12, e2e=12)),
+                     ("realm_not_served", M.ccr(name, other, "nowhere.example", app=4, hbh=13, e2e=13)),
+                     ("missing_avp", M.ccr(name, other, other, app=4, hbh=14, e2e=14, omit=("session_id",))),
+                     ("application", M.ccr(name, other, other, app=4, hbh=15, e2e=15)),
+                     ("dpr", M.dpr(name, other, hbh=16, e2e=16))]
+            for label, wire in sends:
+                try:
+                    sp.send(wire)
+                except OSError:
+                    break
+                h.settle()
+            sp.drain()
+            for f in sp.frames:
+                what = ("request" if f.is_request else "answer") + f".{f.h.code}"
+                cx.evals += 1
+                cx.cov["node_wire_frames_judged"] = cx.cov.get("node_wire_frames_judged", 0) + 1
+                cx.hashes.add(h64("node-origin", direction, f.h.code, f.is_request, f.h.hbh))
+                if f.first(264) != NODE_HOST.encode():
+                    cx.witness("generated.origin_host_not_local.wire", {"frame": repr(f), "dir": direction, "what": what},
+                               {"op": "node_origin"})
+                if f.first(296) != REALM.encode():
+                    cx.witness("generated.origin_realm_not_local.wire",
+                               {"frame": repr(f), "dir": direction, "what": what, "got": repr(f.first(296))},
+                               {"op": "node_origin"})
+        finally:
+            w.teardown()
 
 
 def run_shard(spec):
@@ -322,6 +384,8 @@ def replay(obj):
     elif obj.get("op") == "wire":
         m = Message.from_bytes(bytes.fromhex(obj["wire"]), plain_msg=bool(obj.get("plain")))
         one(cx, m, "replay", obj)
+    elif obj.get("op") == "node_origin":
+        run_node_origin(cx)
     elif obj.get("op") == "generated":
         spec = {"parts": 1, "part": 0, "reps": 6}
         run_generated(cx, spec, random.Random(0))
